@@ -361,7 +361,10 @@ def judgeDec (captured : Bool) (st : Stack) (k : Kind) (ks : String) (ct ot : Li
     match strict with
     | some (h, m) =>
       let want := render st k h m
-      if captured && !emittedAny st k m then
+      -- (the constructors' shape is instantiated from regenerated facts: when the extractor could not find them
+      -- — `Facts.missing` — the shape is unknown and this clause is not judged; the broken `C14_facts*` theorems
+      -- report that, as a proof obligation, not as a failing input)
+      if captured && Facts.missing.isEmpty && !emittedAny st k m then
         some ("emitted", "a message captured from a real handshake is outside the constructors' shape (Model.Emitted)")
       else if obsDec != "ok" then some ("canonical", "a canonical encoding is refused")
       else if (kv ot "g").getD "" != want then some ("canonical", s!"a canonical encoding decodes to other fields: expected {want}")
